@@ -427,6 +427,11 @@ def do_check(prop, mod, tier, seed, work, only=None):
         wall_s=round(wall, 2),
         violations=len(violations),
     )
+    if totals["paths"] < 1 or totals["steps"] < 1:
+        # nothing was explored (engine error, killed run): this is not model-checking evidence
+        ev["level"] = "other"
+        ev["coverage"]["explanation"] = "INCONCLUSIVE RUN, nothing explored: " + "; ".join(reasons[:3])[:600]
+
     evdir = os.environ.get("VERIF_EVIDENCE_DIR", os.path.join(VERIF, "evidence"))
     os.makedirs(evdir, exist_ok=True)
     json.dump(ev, open(os.path.join(evdir, prop + ".json"), "w"), indent=1)
